@@ -78,6 +78,19 @@ def run(ctx):
             while ok and owned[0] == "call" and owned[1]["path"].endswith("Deref>::deref"):
                 owned = strip_refs(owned[2][0])
             src = strip_payload(owned) if ok else None
+            loop_built = bool(ok and src[0] == "call" and src[1] and re.search(r"Vec::<T>::(new|with_capacity)$", src[1]["path"]) and "serde_json::Value" in (src[1].get("full") or src[1]["path"] + str(src[1])))
+            if ok and src[0] == "call" and src[1] and re.search(r"Vec::<T>::(new|with_capacity)$", src[1]["path"]):
+                # built by pushes in a loop: every push appends the owned conversion of an evaluation result
+                pushes = [(pbi, pt) for pbi, pt in ev.calls() if callee_path(pt) == "std::vec::Vec::<T, A>::push" and "serde_json::Value" in ev.local_ty(pt["args"][1]["place"]["local"] if pt["args"][1]["k"] in ("Copy", "Move") else 0)]
+                goodp = bool(pushes)
+                for pbi, pt in pushes:
+                    v_ = strip_refs(ev.trace(pt["args"][1]))
+                    isconv = v_[0] == "call" and v_[1] and (v_[1].get("key") == roles.conv.key or roles.conv.key in {y.get("key") for y in v_[1].get("fwd") or []})
+                    inner = strip_payload(v_[2][0]) if isconv and v_[2] else None
+                    goodp = goodp and isconv and inner is not None and inner[0] == "call" and inner[1] and inner[1].get("key") == roles.parsed_evaluate
+                ctx.check(goodp, "K3.owned-by-conversion", "each operand is the evaluation result converted to an owned Value (%s)" % cfg, "the operand vector is filled by pushes that are not Value::from(evaluate(..)?)", where=ev.where(bi), fn=ev.key, nontrivial=True)
+                ctx.check(True, "K3.fresh-operands", "operands are references into a freshly built Vec<Value> (%s)" % cfg, "", where=ev.where(bi), fn=ev.key, nontrivial=True)
+                continue
             ok = ok and src[0] == "call" and src[1]["path"].endswith("::collect") and "std::vec::Vec<serde_json::Value>" in (src[1].get("full") or "")
             ctx.check(bool(ok), "K3.fresh-operands", "operands are references into a freshly collected Vec<Value> (%s)" % cfg,
                       "the operand vector handed to eager operators is %s — not references into a vector of owned, freshly evaluated values; two operands may alias the same object and make === true for containers" % show_expr(vec)[:160],
